@@ -32,3 +32,19 @@ Definition oauth_start_pkce (sha256 : str -> str) (m : pkce_method) (rnd : str) 
 
 (* OAuthCallback: the verifier presented at redemption is the one stored in the login's cookie *)
 Definition redeem_verifier (c : csrf) : str := cs_verifier c.
+
+(* ---- the configured method as a string ----
+   doOAuthStart: no PKCE when the provider's CodeChallengeMethod is empty; otherwise GenerateCodeChallenge switches
+   on the string: "plain", "S256", anything else is an error (the login start answers with the error page and
+   nothing is sent to the browser). *)
+Definition method_of_string (m : str) : option pkce_method :=
+  match m with
+  | [] => Some PkceNone
+  | _ => if str_eqb m (s "S256") then Some PkceS256 else if str_eqb m (s "plain") then Some PkcePlain else None
+  end.
+
+Definition start_by_string (sha256 : str -> str) (m : str) (rnd : str) : option started :=
+  match method_of_string m with
+  | Some pm => Some (oauth_start_pkce sha256 pm rnd)
+  | None => None
+  end.
